@@ -62,7 +62,7 @@ def run_c10(ctx, fa):
     tries = 0
     while len(cases) < n and tries < 6 * n:
         tries += 1
-        g = gen.Gen(rnd, logical=rnd.random() < 0.25, max_depth=rnd.choice([1, 2, 2, 3]), big=False)
+        g = gen.Gen(rnd, logical=rnd.random() < 0.25, max_depth=rnd.choice([1, 2, 2, 3]), big=rnd.random() < 0.15)
         ir = g.schema()
         raw = g.render(ir)
         try:
